@@ -34,7 +34,7 @@ manifest = {
     "setup_cmd": "cd /verif/harness && CARGO_NET_OFFLINE=true cargo build --release --offline && cd miri_c14 && CARGO_NET_OFFLINE=true MIRIFLAGS='-Zmiri-tree-borrows -Zmiri-ignore-leaks -Zmiri-disable-isolation -Zmiri-permissive-provenance' cargo +nightly miri run --offline -- 2 2",
     "hooks": {
         "guard": "cargo feature `verif-hooks` of the prio crate (off by default)",
-        "enable": "the harness crate /verif/harness path-depends on /repo with features experimental,test-util,multithreaded,verif-hooks; every check starts with `cargo build --release --offline` there",
+        "enable": "the harness crate /verif/harness path-depends on /repo with features experimental,test-util,multithreaded,verif-hooks; every check starts with `cargo build --release --offline --bin pv_cXX` there (one driver binary per property, so a check rebuilds /repo and only its own driver)",
         "baseline_off_cmd": "cd /repo && cargo test --workspace --no-fail-fast --offline",
         "source_commits": hook_commits,
         "add_only": True,
@@ -42,7 +42,7 @@ manifest = {
     "engines": [{
         "name": "pv", "path": "/verif/harness",
         "serves_properties": [c["property_id"] for c in checks],
-        "kind_free_text": "Rust harness (one driver per property) executing the real crate under hostile workloads with monitors: reference-model oracles, panic/overflow monitor, allocation monitor, event-log history checkers; sharded over 16 processes by /verif/check which merges observations, matches known findings and writes evidence",
+        "kind_free_text": "Rust harness (one driver binary pv_cXX per property, sharing common/zoo/proto modules) executing the real crate under hostile workloads with monitors: reference-model oracles, panic/overflow monitor, allocation monitor, event-log history checkers; sharded over 16 processes by /verif/check which merges observations, matches known findings and writes evidence",
     }],
     "checks": checks,
     "notes": "Runtime monitoring only: every verdict is 'held on the executions observed'. Exit 2 + INCONCLUSIVE line = harness could not decide (build failure against a modified tree, watchdog, too few events).",
